@@ -86,6 +86,16 @@ struct Engine
         const auto& fields = Cfg::fields();
         char who[8];
         snprintf(who, sizeof who, "e%d", i);
+        // structure first (span counts are C04's business too), then values
+        {
+            const auto a0 = G::addresses(ce);
+            for (size_t k = 0; k < NF; ++k)
+                if (a0[k].count != me.e.f[k].size())
+                {
+                    viol("C04,C12", "span_count_mismatch", fmt("%s field %zu: span holds %zu objects, expected %zu", who, k, a0[k].count, me.e.f[k].size()));
+                    return;
+                }
+        }
         const MElem got = G::read(ce);
         if (!elem_match(me.e, got))
         {
